@@ -419,7 +419,7 @@ func exec(c *Case) *Result {
 					continue
 				}
 				sum := p.Sum[:strings.Index(p.Sum, "/")]
-				if p.Dg != "" && p.Dg != "sha256:"+sum {
+				if p.Dg != "" && p.Dg != "sha256:"+sum && !noChunkDigestOp(c) {
 					res.problems = append(res.problems, fmt.Sprintf("%s: pre-read callback for %s chunk %d+%d carries bytes that do not match its digest", nm, p.Path, p.ChOff, p.ChSize))
 				}
 				if b, ok := content0[p.Path]; ok {
@@ -598,6 +598,17 @@ func injectWhileParked(done <-chan struct{}, inject func(), count map[string]int
 			inject()
 		} else {
 			time.Sleep(50 * time.Microsecond)
+		}
+	}
+	return false
+}
+
+// noChunkDigestOp: the TOC was stripped of chunk digests: a multi-chunk file then has only its file digest, which both
+// stores report for its first chunk (legacy stargz); such a chunk cannot be verified by anybody
+func noChunkDigestOp(c *Case) bool {
+	for _, m := range c.Ops {
+		if m.Op == "nochunkdigest" {
+			return true
 		}
 	}
 	return false
